@@ -87,7 +87,9 @@ fn staged(case: &Case, rt_fail: &mut Option<(String, Value)>, stats: &mut (usize
         if pl2 != pl {
             *rt_fail = Some(("PL differs after a JSON round trip".into(), json!({"json": j.chars().take(2000).collect::<String>()})));
         } else if let Ok(j2) = prqlc::json::from_pl(&pl2) {
-            if j2 != j {
+            // compared as JSON values: named arguments are a hash map, so the member order of
+            // that object may differ between two serialisations of equal trees
+            if serde_json::from_str::<Value>(&j2).ok() != serde_json::from_str::<Value>(&j).ok() {
                 *rt_fail = Some(("PL JSON differs after a round trip".into(), json!({})));
             }
         }
@@ -104,7 +106,7 @@ fn staged(case: &Case, rt_fail: &mut Option<(String, Value)>, stats: &mut (usize
         if rq2 != rq {
             *rt_fail = Some(("RQ differs after a JSON round trip".into(), json!({"json": jr.chars().take(2000).collect::<String>()})));
         } else if let Ok(j2) = prqlc::json::from_rq(&rq2) {
-            if j2 != jr {
+            if serde_json::from_str::<Value>(&j2).ok() != serde_json::from_str::<Value>(&jr).ok() {
                 *rt_fail = Some(("RQ JSON differs after a round trip".into(), json!({})));
             }
         }
@@ -168,6 +170,9 @@ pub fn run(ctx: &Ctx) -> i32 {
     ctx.enumerate("repo-queries", corpus, |c| check(c, &ctx.known));
     ctx.shrink_iters.store(300, std::sync::atomic::Ordering::Relaxed);
     ctx.tape_search("generated", ctx.n(20_000, 800_000), 500, gen_case, |c| check(c, &ctx.known));
+    if !ctx.quick() {
+        ctx.fuzz_campaign("staged", ctx.fuzz_secs(300), 2048);
+    }
     ctx.finish(
         "generated programs (every construct of the generator; with/without `prql` header; some made erroneous on purpose) and the repository's integration queries x 12 dialects / no option x format on/off: PL and RQ must survive JSON (equal value and identical re-serialisation), and source -> PL -> JSON -> PL -> RQ -> JSON -> RQ -> SQL must equal compile(source) byte for byte, or fail with equal (kind, code, reason, hints, span). non-trivial = compiles, PL has >= 8 spanned nodes and RQ >= 1 table; distinct = (source, dialect, format)",
         &["display/location of errors are not compared (the staged API has no source text)", "a difference is reported only if repeated evaluation of both paths yields disjoint outputs (compilation is not deterministic: finding C11-column-order-hash-dependent)"],
